@@ -9,6 +9,7 @@ import (
 	"io"
 	"log/slog"
 	"sync"
+	"sync/atomic"
 	"testing"
 
 	"github.com/thushan/olla/internal/adapter/stats"
@@ -166,6 +167,73 @@ func TestVerif_Balancer(t *testing.T) {
 			} else {
 				tr.Emit("SelRR", "res", len(eps)+1) // errors or foreign results: unexplainable on purpose
 			}
+		}
+		// one selector instance serves all requests, each with its own candidate list: concurrent selections over
+		// DIFFERENT lists must each return a member of the list they were given (every 40th input; two disjoint
+		// lists of 512 routable endpoints keep whatever a selector does per call busy for a while)
+		if sn%40 == 0 {
+			mk := func(tag string) []*domain.Endpoint {
+				l := make([]*domain.Endpoint, 512)
+				for i := range l {
+					l[i] = &domain.Endpoint{Name: fmt.Sprintf("%s%d", tag, i), URLString: fmt.Sprintf("http://10.%s.%d.%d:11434", map[string]string{"a": "1", "b": "2"}[tag], i/250, i%250+1),
+						Status: domain.StatusHealthy, Priority: 100}
+				}
+				return l
+			}
+			la, lb := mk("a"), mk("b")
+			own := map[*domain.Endpoint]string{}
+			for _, e := range la {
+				own[e] = "a"
+			}
+			for _, e := range lb {
+				own[e] = "b"
+			}
+			for _, sel := range []struct {
+				name string
+				s    domain.EndpointSelector
+			}{{"round-robin", rr}, {"priority", prio}, {"least-connections", lc}} {
+				var foreign, errs atomic.Int64
+				var wg sync.WaitGroup
+				for gi := 0; gi < 8; gi++ {
+					wg.Add(1)
+					go func(gi int) {
+						defer wg.Done()
+						list, tag := la, "a"
+						if gi%2 == 1 {
+							list, tag = lb, "b"
+						}
+						for j := 0; j < 400; j++ {
+							e, err := sel.s.Select(ctx, list)
+							if err != nil || e == nil {
+								errs.Add(1)
+							} else if own[e] != tag {
+								foreign.Add(1)
+							}
+						}
+					}(gi)
+				}
+				wg.Wait()
+				tr.Emit("Foreign", "sel", sel.name, "foreign", foreign.Load(), "errs", errs.Load())
+			}
+			// a wide top tier: 20 routable endpoints of one priority (and a lower tier): every one of them is picked
+			wide := make([]*domain.Endpoint, 0, 24)
+			for i := 0; i < 20; i++ {
+				wide = append(wide, &domain.Endpoint{Name: fmt.Sprintf("w%d", i), URLString: fmt.Sprintf("http://10.3.0.%d:11434", i+1), Status: domain.StatusHealthy, Priority: 100})
+			}
+			for i := 0; i < 4; i++ {
+				wide = append(wide, &domain.Endpoint{Name: fmt.Sprintf("low%d", i), URLString: fmt.Sprintf("http://10.3.1.%d:11434", i+1), Status: domain.StatusHealthy, Priority: 10})
+			}
+			pickedTop, pickedLow := map[string]bool{}, 0
+			for j := 0; j < 6000; j++ {
+				if e, err := prio.Select(ctx, wide); err == nil && e != nil {
+					if e.Priority == 100 {
+						pickedTop[e.Name] = true
+					} else {
+						pickedLow++
+					}
+				}
+			}
+			tr.Emit("WideTier", "top", 20, "pickedTop", len(pickedTop), "pickedLow", pickedLow)
 		}
 	}
 }
